@@ -98,6 +98,8 @@ per_count("setlist", counts_quick=(0, 1), counts_thorough=(0, 1, 2), entry="h_se
           cbmc=unw(6) + NOOOM, label="no allocation failure; 2 new values; " + FLAGTXT, props=["C09", "C10", "C02"], cost=40, **CFG)
 per_count("setnint_byname", counts_quick=(0, 1), counts_thorough=(0, 1, 2), entry="h_setnint_byname", func="cfg_setnint", harness="harness/store2.c",
           cbmc=unw(6) + OOM, label=FLAGTXT, props=["C14", "C10", "C09", "C02"], cost=20, **CFG)
+per_count("getters", entry="h_getters", func="cfg_opt_getnint/float/bool/str/ptr/nsec, cfg_opt_size, cfg_opt_getcomment, cfg_opt_name", harness="harness/store2.c", cbmc=unw(6) + NOOOM,
+          label="5 option types, default marker set / clear, any index", props=["C01", "C09", "C02"], cost=20, **CF)
 U("setnstr_byname", entry="h_setnstr_byname", func="cfg_setnstr", harness="harness/store2.c", defs={"quick": ["-DNV=2"]}, cbmc=unw(6) + OOM,
   label="bounded(one value, strings <= 2 bytes)", props=["C14", "C10", "C02"], cost=10, **CFG)
 U("setnfloat_byname", entry="h_setnfloat_byname", func="cfg_setnfloat", harness="harness/store2.c", defs={"quick": ["-DNV=2"]}, cbmc=unw(6) + OOM,
@@ -206,6 +208,8 @@ for _kind, _entry in (("getopt", "h_getopt_path"), ("getsec", "h_getsec_path")):
     U("%s_deep_c0k1n5" % _kind, entry=_entry, func="cfg_getopt_secidx (three levels)", defs={"quick": ["-DPATHN=5", "-DNSEC=1", "-DTREE_COMBO=0", "-DTREE_DEEP", "-DCFGV_FIXED_DUP=8"]},
       cbmc=unw(7) + NOOOM, timeout=1800, label="bounded(path <= 5 bytes over all bytes; three-level tree root{a, s{b, t{c}}}, single sections; no allocation failure)",
       props=["C11", "C02"], term_props=["C11", "C02"], cost=900, **RES)
+U("set_validate", entry="h_set_validate", func="cfg_set_validate_func, cfg_set_validate_func2", defs={"quick": ["-DPATHN=3", "-DCFGV_FIXED_DUP=8"]}, cbmc=unw(5) + NOOOM,
+  remove=["cfg_getopt_array"], carriers=["carriers/cfg_getopt_array.c"], label="proof (loop-free; the schema resolver by contract)", props=["C14", "C02"], cost=10, **RES)
 U("getopt_array_leaf", entry="h_getopt_array_leaf", func="cfg_getopt_array (nested-call contract)", defs={"quick": ["-DPATHN=3", "-DCFGV_FIXED_DUP=8"]}, cbmc=unw(5) + NOOOM,
   label="bounded(name <= 3 bytes)", props=["C14", "C11", "C02"], term_props=["C11", "C02"], cost=20, **RES)
 
